@@ -1,5 +1,6 @@
 import Ebu.Generated.Consts
 import Ebu.Props.C03
+import Ebu.Proofs.PersistConc
 import Ebu.Spec.Log
 import Ebu.Proofs.Log
 /-!
@@ -104,6 +105,15 @@ theorem ds_read_untruncated_partial (chunk : Nat) (hc : 0 < chunk) (rs : List Re
     ∃ evs, (dsOf chunk rs).read (if j = 0 then [] else fmt10 j) limit = some (evs, fmt10 (j + evs.length)) ∧
       evs.map (·.2) = (rs.drop j).take chunk :=
   Ebu.Log.ds_read_untruncated_partial chunk hc rs h j hj limit hl
+
+/-- concurrent appenders, every schedule (M2p read as "threads calling MemoryStore.Append": reserve-and-insert is
+one step because both happen under the store's write lock, see `memory_store_locked` below): offsets are handed out
+1, 2, 3, … in log order, one record per append, and without the lock two appenders can get the same offset -/
+theorem concurrent_appends_increasing (recs sched : List Nat) :
+    let s := Ebu.PersistConc.run recs sched
+    s.log.map (·.1) = List.range' 1 s.log.length ∧ (s.log.map (·.2)).Perm (Ebu.PersistConc.persistedRecs s) ∧
+    (([0, 1, 0, 1].foldl Ebu.PersistConc.ustepAt { threads := [{ record := 7 }, { record := 8 }] }).log.map (·.1)) = [1, 1] :=
+  ⟨(Ebu.PersistConc.offsets_ok recs sched).1, Ebu.PersistConc.log_ok recs sched, Ebu.PersistConc.unlocked_duplicates_offsets⟩
 
 /-- the memory store's offset counter and event slice are only touched under its mutex (write
 locked for Append) in the CURRENT source: concurrent appenders cannot interleave "reserve offset"
